@@ -46,6 +46,16 @@ CLAIMED = {
              "inputs (xy-plane exact frame incl. the mirrored frame kabsch uses for -z normals, exact 3-D placements, (N,2) input), batch vs single.",
         design="§4 C06", technique="Coq proof (list permutation lemmas over cyclic pairs, sign algebra, refutation by vm_compute) + exact-rational correspondence",
         note="winding number = crossing parity (Jordan-type statement) is not proved, it is the per-point correspondence; known finding ellipse-box-test."),
+    "C10": dict(
+        text="Translator tie: the scalar closed forms of Circle/Ellipse/Sphere/Ellipsoid are regenerated from /repo into Gen/Scalars.v on every run and the "
+             "theorems are re-checked against them: area and volume formulas equal the defining polar/spherical iterated Riemann integrals (Coquelicot), "
+             "central inertia entries, eccentricity and axis symmetry, iq <= 1; the off-centre planar moments are proved to be exactly the swapped "
+             "parallel-axis model (refuted against the integrals of y^2, x^2 with a witness; partial for cx^2=cy^2; polar moment proved right). "
+             "Correspondence: Q-model coefficients of pi vs implementation on log-grid/tie/near-tie axes in every ordering and off-origin centres; "
+             "perimeter / ellipsoid area vs quadrature of the defining integrals, with Interval-certified enclosures of the arc-length integral for a sample.",
+        design="§4 C10", technique="source-to-Coq translation + Coq proof (Coquelicot RInt, field) + Interval-certified samples + model/implementation correspondence",
+        note="change of variables to polar/spherical coordinates not proved; isoperimetric inequality and Legendre's area formula not proved (quadrature + Interval samples); "
+             "known finding planar-moments-parallel-axis-swapped (pinned by the suite)."),
 }
 
 REASON_TODO = "check not built yet (work in progress this round)"
